@@ -438,7 +438,8 @@ class YPPythonCodeGenerator:
     def generate(self,code):
         """code is a YPCode, output is a string"""
         if self.context.debug_filename:
-            s = f'# from {self.context.current_source_file}\n#\n\n'
+            # a file name may contain line breaks: keep every line of it a comment
+            s = ''.join([ '# ' + line + '\n' for line in f'from {self.context.current_source_file}'.splitlines() ]) + '#\n\n'
         else:
             s = '\n'
         return _output_header + s + code.generate(self)
